@@ -118,10 +118,18 @@ def judge(rec, opts):
     return [(f"lexer-tokens:{focus}", {"src": src, "want": want, "got": got})]
 
 
+# (OutputStep and TagStep are both instances of InsideStep: TLC reports them under that name)
+ACTIONS = ["AddSymbol", "Begin", "LexEnd", "LexContent", "LexRaw", "LexComment", "LexOutputOpen", "LexTagOpen", "LexCommentTagOpen",
+           "InsideStep", "LiquidStep", "LineStep", "BlockCommentStep", "LiquidCommentStep"]
+# focuses that are run once more, with two symbols only, under -coverage 1 (coverage slows the big runs down threefold)
+COVERED = ("lx-markup", "lx-output-closed", "lx-tag", "lx-liquid-closed", "lx-liquid-comment", "lx-comment", "lx-raw")
+
+
 def run(chk: Check, tier: str, only: tuple[str, ...] | None = None, shrink: int = 0) -> None:
     """Run every focus of the lexer machine and replay its exports into the library."""
     from . import gen
     from .common import seed
+    taken: dict[str, int] = {}
     for focus, alpha, n, walks, pre, suf in SIMS:
         if only and focus not in only:
             continue
@@ -149,6 +157,14 @@ def run(chk: Check, tier: str, only: tuple[str, ...] | None = None, shrink: int 
         cfg = tlc.cfg_text(constants={"Alphabet": f"<- {alpha}", "MaxLen": str(n), "Prefix": f"<- {pre}", "Suffix": f"<- {suf}",
                                       "Focus": _q(focus), "Shorthand": "TRUE" if focus.endswith("shorthand") else "FALSE"},
                            invariants=INVARIANTS, properties=["Progress"])
+        if focus in COVERED:
+            small = tlc.cfg_text(constants={"Alphabet": f"<- {alpha}", "MaxLen": "2", "Prefix": f"<- {pre}", "Suffix": f"<- {suf}",
+                                            "Focus": _q(focus), "Shorthand": "FALSE"}, invariants=INVARIANTS[:-1])
+            rc = tlc.run("LiquidLexer", small, tag=f"lexer-cov-{focus}", timeout=600, coverage=True)
+            for a, (cnt, _) in rc.coverage.items():
+                if a.startswith("LiquidLexer!"):
+                    taken[a.split("!", 1)[1]] = taken.get(a.split("!", 1)[1], 0) + cnt
+            rc.cleanup()
         r = tlc.run("LiquidLexer", cfg, tag=f"lexer-{focus}", timeout=3000)
         if r.error:
             chk.machinery_error = r.error
@@ -164,3 +180,9 @@ def run(chk: Check, tier: str, only: tuple[str, ...] | None = None, shrink: int 
             gen.replay_file(chk, r.workdir / "out.ndjson", "harness.lexer", "judge")
         finally:
             r.cleanup()
+    # vacuity guard: every action of the machine was taken in the focuses run with coverage
+    if not only and not chk.machinery_error:
+        never = [a for a in ACTIONS if not taken.get(a)]
+        if never:
+            chk.machinery_error = f"vacuity: actions of LiquidLexer never taken: {never}"
+        chk.cov.setdefault("lexer_actions_taken", taken)
